@@ -21,17 +21,19 @@ let fstr = function
 
 (* listing order used by the harness' recording file system: by index, then
    final < gen < recv, everything else last *)
+(* numbers up to 2^64-1: compared as zero padded decimal strings *)
+let pad (x : n) : string = let s = sn x in String.make (24 - String.length s) '0' ^ s
 let dkey = function
-  | DFinal i -> (0, int_of_n i, 0)
-  | DGen i -> (0, int_of_n i, 1)
-  | DRecv i -> (0, int_of_n i, 2)
-  | DOther k -> (9, int_of_n k, 0)
+  | DFinal i -> (0, pad i, 0)
+  | DGen i -> (0, pad i, 1)
+  | DRecv i -> (0, pad i, 2)
+  | DOther k -> (9, pad k, 0)
 let fkey = function
-  | FSnap i -> (0, int_of_n i, 0)
-  | FShrunk i -> (0, int_of_n i, 1)
-  | FFlag -> (8, 2, 0)
-  | FMeta -> (8, 3, 0)
-  | FOther k -> (9, int_of_n k, 0)
+  | FSnap i -> (0, pad i, 0)
+  | FShrunk i -> (0, pad i, 1)
+  | FFlag -> (8, pad (n_of_int 2), 0)
+  | FMeta -> (8, pad (n_of_int 3), 0)
+  | FOther k -> (9, pad k, 0)
 
 let ord (l : dname list) : dname list =
   List.stable_sort (fun a b -> compare (dkey a) (dkey b)) l
@@ -135,7 +137,7 @@ let () =
       (* the applied index of the rsm: 1 after the bootstrap membership entry *)
       let ap = ref (if disk then n_of_int 1 else N0) in
       let dead = ref false in
-      let nlt a b = int_of_n a < int_of_n b in
+      let nlt a b = compare (pad a) (pad b) < 0 in
       let total = ref 0 in
       let stop = ref false in
       let lift tr = List.map (fun o -> DBase o) tr in
